@@ -31,19 +31,21 @@ func runC14(c *an.Ctx, p *an.Prog, thorough bool) {
 			an.EnumPaths(whs, nil, ci, func(s *an.PathState) {
 				n++
 				a := s.CallArgs(ci)
-				sp, _ := a[1].CallOf()
-				if sp == nil || sp.Aux != "fmt.Sprintf" {
-					bad = append(bad, "the first write is not a Sprintf'ed line: "+a[1].K)
+				_, parts, ok := writtenText(an.CalleeName(ci), a)
+				if !ok {
+					bad = append(bad, "the first write is not a composed record line: "+a[1].K)
 					return
 				}
-				if f, _ := sp.Args[0].ConstString(); f != "%s:%d:%d:%s\n" {
-					bad = append(bad, fmt.Sprintf("record format is %q, schema: \"%%s:%%d:%%d:%%s\\n\"", f))
-				}
-				va := sp.Args[1]
-				if va.Op != "varargs" || len(va.Args) != 4 {
-					bad = append(bad, "record line does not have 4 operands")
+				fargs, ok := matchParts(parts, "%s:%d:%d:%s\n")
+				if !ok || len(fargs) != 4 {
+					got := ""
+					for _, pp := range parts {
+						got += pp.Lit + pp.Verb
+					}
+					bad = append(bad, fmt.Sprintf("record format is %q, schema: \"%%s:%%d:%%d:%%s\\n\"", got))
 					return
 				}
+				va := &an.Term{Op: "varargs", Args: fargs}
 				if g, _ := va.Args[0].CallOf(); g == nil || !strings.HasSuffix(g.Aux, "Hasher.GetFormatID") {
 					bad = append(bad, "field 1 is not the hasher's algorithm identifier")
 				}
@@ -142,11 +144,12 @@ func c142(c *an.Ctx, p *an.Prog) {
 					bad = append(bad, "short read of the random source not excluded")
 				}
 			}
-			sp, _ := ret.Args[0].CallOf()
-			if sp == nil || sp.Aux != "fmt.Sprintf" || !sp.Args[0].IsConst(`"%s:%s"`) || sp.Args[1].Op != "varargs" || len(sp.Args[1].Args) != 2 {
+			spArgs, okFmt := fmtArgs(ret.Args[0], "%s:%s")
+			if !okFmt || len(spArgs) != 2 {
 				bad = append(bad, "result is not Sprintf(\"%s:%s\", …)")
 				return
 			}
+			sp := &an.Term{Args: []*an.Term{nil, {Op: "varargs", Args: spArgs}}}
 			for i, want := range []*an.Term{salt, kdf} {
 				e, _ := sp.Args[1].Args[i].CallOf()
 				if e == nil || e.Aux != "(*encoding/base64.Encoding).EncodeToString" || e.Args[1].K != want.K {
@@ -215,11 +218,12 @@ func c142(c *an.Ctx, p *an.Prog) {
 				bad = append(bad, "success without Gen err==nil")
 				return
 			}
-			sp, _ := ret.Args[0].CallOf()
-			if sp == nil || sp.Aux != "fmt.Sprintf" || !sp.Args[0].IsConst(`"%s:%s"`) || sp.Args[1].Op != "varargs" || len(sp.Args[1].Args) != 2 {
+			spArgs, okFmt := fmtArgs(ret.Args[0], "%s:%s")
+			if !okFmt || len(spArgs) != 2 {
 				bad = append(bad, "result is not Sprintf(\"%s:%s\", …)")
 				return
 			}
+			sp := &an.Term{Args: []*an.Term{nil, {Op: "varargs", Args: spArgs}}}
 			for i, want := range []int{1, 0} { // Gen returns (hash, salt): salt is written first
 				e, _ := sp.Args[1].Args[i].CallOf()
 				if e == nil || e.Aux != "(*encoding/base64.Encoding).EncodeToString" || e.Args[1].K != extractOf(gen, want).K {
